@@ -172,8 +172,14 @@ class ArityChecker(MultiFunction):
             # Check that each list tensor component has the same
             # argument numbers (ignoring parts)
             numbers = set(tuple(sorted(set(arg[0].number() for arg in op))) for op in ops)
-            if () in numbers:  # Allow e.g. <v[0], 0, v[1]> but not <v[0], u[0]>
-                numbers.remove(())
+            # Allow e.g. <v[0], 0, v[1]> but not <v[0], u[0]>, and not
+            # <v[0], 1> either: a nonzero component without arguments
+            # makes the tensor affine in the arguments
+            if any(not op and not isinstance(c, Zero) for c, op in zip(o.ufl_operands, ops)):
+                raise ArityMismatch(
+                    "Listtensor components must all depend on the form arguments or be zero."
+                )
+            numbers.discard(())
             if len(numbers) > 1:
                 raise ArityMismatch(
                     "Listtensor components must depend on the same argument numbers, "
